@@ -247,6 +247,35 @@ LENGTH_FAMILIES = {
     "len:blank-lines": lambda d: "{\n" + "\n" * (2 * d) + "  a = 1;\n}",
     "len:spaces": lambda d: "{ a =" + " " * (8 * d) + "1; }",
 }
+# indentation-length families: an own-line comment (and the token after it) indented by 8d blanks, in every code gap of a few
+# small programs — running time must not depend on how far a line is indented
+IND_BASES = ["{ a ? 1, b }: a", "{ a = 1; b = [ 1 2 ]; }", "let a = 1; in a", "if a then b else c", "with a; b", "assert a; b", "a.b or c", "f a b",
+             "a ++ b // c", "x: y", "{ inherit (a) b c; }", "[ 1 (a b) ]", "-a + !b", "a ? b.c", "rec { a.b = 1; }", "{ a, ... }@b: a"]
+
+
+def _indent_families():
+    fams = {}
+    for bi, base in enumerate(IND_BASES):
+        bt = cst.parse(base)
+        keys = [t.key() for t in cst.tokens(bt)]
+        for g in cst.code_gaps(bt):
+            if g.start == 0:
+                continue
+
+            def make(d, base=base, g=g, cr=False):
+                pad = " " * (8 * d)
+                b = base.encode()
+                return (b[: g.start] + ("\n" + pad + "# c" + ("\r" if cr else "") + "\n" + pad).encode() + b[g.end :]).decode()
+
+            probe = make(1)
+            pt = cst.parse(probe)
+            if pt.root.has_error or [t.key() for t in cst.tokens(pt)] != keys:
+                continue
+            fams[f"ind:{bi}:{g.index}"] = make
+    return fams
+
+
+LENGTH_FAMILIES.update(_indent_families())
 PAIR_FAMILIES = _pairs()
 FAMILIES.update(LENGTH_FAMILIES)
 FAMILIES.update(PAIR_FAMILIES)
@@ -409,7 +438,7 @@ def run_shard(sh):
     for i, name in enumerate(names):
         if i % sh.nshards != sh.index:
             continue
-        for d in (sh.params["pair_depths"] if name.startswith("pair:") else sh.params["single_depths"] if name.startswith(("single:", "wide:")) else sh.params["len_depths"] if name.startswith("len:") else sh.params["depths"]):
+        for d in (sh.params["pair_depths"] if name.startswith("pair:") else sh.params["single_depths"] if name.startswith(("single:", "wide:")) else sh.params["len_depths"] if name.startswith(("len:", "ind:")) else sh.params["depths"]):
             case = {"kind": "family", "family": name, "d": d}
             if name in fam_block or any(name.startswith("pair:") and fb.startswith("ctx:") and fb[4:] in name[5:].split("+") for fb in fam_block):
                 sh.excluded += 1
